@@ -48,7 +48,7 @@ func (c *StorageChanges) Changes() map[uint64][][]byte {
 type StorageKey struct {
 	slot          *uint256.Int
 	offset        uint8
-	children      map[uint256.Int]map[uint8]*StorageKey
+	children      map[uint256.Int]map[uint8]map[common.Hash]*StorageKey
 	childrenIndex map[string]*StorageKey
 	changes       *StorageChanges
 	data          []byte
@@ -65,7 +65,7 @@ func NewBranchKey(slot *uint256.Int, offset uint8, typeId common.Hash, data []by
 		offset:        offset,
 		data:          data,
 		typeId:        typeId,
-		children:      make(map[uint256.Int]map[uint8]*StorageKey),
+		children:      make(map[uint256.Int]map[uint8]map[common.Hash]*StorageKey),
 		childrenIndex: make(map[string]*StorageKey),
 		nodeType:      BranchNode,
 	}
@@ -77,7 +77,7 @@ func NewBranchKey(slot *uint256.Int, offset uint8, typeId common.Hash, data []by
 // The data field for root key is the balance of the account.
 func NewRootKey() *StorageKey {
 	return &StorageKey{
-		children:      make(map[uint256.Int]map[uint8]*StorageKey),
+		children:      make(map[uint256.Int]map[uint8]map[common.Hash]*StorageKey),
 		childrenIndex: make(map[string]*StorageKey),
 		nodeType:      RootNode,
 	}
@@ -124,18 +124,22 @@ func (k *StorageKey) Offset() uint8 {
 func (k *StorageKey) AddChild(child *StorageKey) (*StorageKey, error) {
 	slot, offset := child.Slot(), child.Offset()
 	if k.children[*slot] == nil {
-		k.children[*slot] = make(map[uint8]*StorageKey)
+		k.children[*slot] = make(map[uint8]map[common.Hash]*StorageKey)
+	}
+	if k.children[*slot][offset] == nil {
+		k.children[*slot][offset] = make(map[common.Hash]*StorageKey, 1)
+	}
+
+	// keys that share a slot and offset are distinct records when their types differ
+	existing, ok := k.children[*slot][offset][child.typeId]
+	if !ok {
+		k.children[*slot][offset][child.typeId] = child
+		existing = child
 	}
 
 	storageKey := string(child.data)
 	if k.childrenIndex[storageKey] == nil {
-		k.childrenIndex[storageKey] = child
-	}
-
-	existing, ok := k.children[*slot][offset]
-	if !ok {
-		k.children[*slot][offset] = child
-		return child, nil
+		k.childrenIndex[storageKey] = existing
 	}
 
 	return existing, nil
